@@ -128,21 +128,24 @@ Definition clamp_insert (len : nat) (i : Z) : nat :=
 
 Record pslice := mkSlice { s_start : option Z; s_stop : option Z; s_step : option Z }.
 
+(* clipping of one slice bound (PySlice_AdjustIndices) *)
+Definition slice_clip (n : Z) (neg : bool) (v : Z) : Z :=
+  if v <? 0 then (let v' := v + n in if v' <? 0 then (if neg then -1 else 0) else v')
+  else if n <=? v then (if neg then n - 1 else n) else v.
+
+Definition slice_len (neg : bool) (start stop step : Z) : Z :=
+  if neg then (if stop <? start then (start - stop - 1) / (- step) + 1 else 0)
+  else (if start <? stop then (stop - start - 1) / step + 1 else 0).
+
 (* PySlice_Unpack + PySlice_AdjustIndices: (start, stop, step, slicelength); None when step = 0 *)
 Definition slice_adjust (len : nat) (s : pslice) : option (Z * Z * Z * Z) :=
   let n := Z.of_nat len in
   let step := match s_step s with Some k => k | None => 1 end in
   if step =? 0 then None else
   let neg := step <? 0 in
-  let adj (v : Z) :=
-      if v <? 0 then (let v' := v + n in if v' <? 0 then (if neg then -1 else 0) else v')
-      else if n <=? v then (if neg then n - 1 else n) else v in
-  let start := match s_start s with Some v => adj v | None => if neg then n - 1 else 0 end in
-  let stop := match s_stop s with Some v => adj v | None => if neg then -1 else n end in
-  let slen :=
-      if neg then (if stop <? start then (start - stop - 1) / (- step) + 1 else 0)
-      else (if start <? stop then (stop - start - 1) / step + 1 else 0) in
-  Some (start, stop, step, slen).
+  let start := match s_start s with Some v => slice_clip n neg v | None => if neg then n - 1 else 0 end in
+  let stop := match s_stop s with Some v => slice_clip n neg v | None => if neg then -1 else n end in
+  Some (start, stop, step, slice_len neg start stop step).
 
 Fixpoint arith_seq (k : nat) (start step : Z) : list nat :=
   match k with
